@@ -44,7 +44,7 @@ impl Hooks for DsimHooks {
         dsim::code_rng_seed()
     }
     fn net(&self) -> Option<&dyn metrics::__verif::net::Backend> {
-        if dsim::in_sim() {
+        if crate::simnet::active() {
             Some(&crate::simnet::BACKEND)
         } else {
             None
